@@ -182,7 +182,26 @@ let run_wirein kvs _ =
   let faildata = List.fold_left (fun acc o -> match o with ObMsg (d, Some _) -> hexb d | _ -> acc) "?" obs in
   Printf.sprintf "obs=%s replies=%s faildata=%s" (String.concat "," (List.map obs_str obs)) (if reps = [] then "-" else String.concat "," reps) faildata
 
+(* ---- suite close ---- *)
+let run_close kvs _ =
+  let steps = String.split_on_char '|' (get kvs "steps") in
+  let ops = List.map (fun st -> match String.split_on_char '~' st with
+    | ["close"; c; r] -> AClose (z_of_int (int_of_string c), bytes_of_string (payload r))
+    | ["closenow"] -> ACloseNow
+    | ["peerclose"; p] -> APeerClose (bytes_of_string (payload p))
+    | ["write"] -> AWrite | ["writer"] -> AWriter | ["read"] -> ARead | ["ping"] -> APing
+    | _ -> failwith ("bad step " ^ st)) steps in
+  let (st, res) = csm_run true cs_init ops in
+  let rs = List.map (function CNil -> "nil" | CErrClosed -> "closed" | CErr -> "err"
+                             | CErrCloseFrame (c, r) -> Printf.sprintf "close:%d:%s" (int_of_z c) (hexb r)) res in
+  let closes = List.map hexb st.cs_wire in
+  let status = List.fold_left (fun acc r -> match r with CErrCloseFrame (c, _) -> string_of_int (int_of_z c) | _ -> acc) "-"
+      (List.filteri (fun i _ -> match List.nth ops i with APeerClose _ -> true | _ -> false) res) in
+  let status = if status = "-" && List.exists (function APeerClose _ -> true | _ -> false) ops then "-1" else status in
+  Printf.sprintf "res=%s closes=%s status=%s" (String.concat "," rs) (if closes = [] then "none" else String.concat "," closes) status
+
 let suites : (string * ((string * string) list -> (string * string) list -> string)) list = [
+  "close", run_close;
   "wire-in", run_wirein;
   "mask", (fun kvs _ -> run_mask kvs);
   "wire-out", run_wireout;
